@@ -32,6 +32,7 @@ func main() {
 	repo := flag.String("repo", "/repo", "repository working tree to analyse")
 	out := flag.String("out", "/verif", "directory holding evidence/, replay/, known_findings.json")
 	replay := flag.String("replay", "", "replay file: re-check and report the status of that obligation")
+	findingsPath := flag.String("findings", "", "known-findings file (default <out>/known_findings.json)")
 	list := flag.Bool("list", false, "list obligations")
 	meta := flag.Bool("meta", false, "print the rule metadata of all properties as JSON and exit")
 	flag.Parse()
@@ -62,7 +63,10 @@ func main() {
 		fmt.Fprintf(os.Stderr, "jetverif: cannot analyse %s: %v\n", *repo, err)
 		os.Exit(2)
 	}
-	findings, err := an.LoadFindings(filepath.Join(*out, "known_findings.json"))
+	if *findingsPath == "" {
+		*findingsPath = filepath.Join(*out, "known_findings.json")
+	}
+	findings, err := an.LoadFindings(*findingsPath)
 	if err != nil {
 		fmt.Fprintf(os.Stderr, "jetverif: known_findings.json: %v\n", err)
 		os.Exit(2)
